@@ -49,17 +49,17 @@ structure SpatialMap (α : Type) where
 
 def identitySpatialMap (d : Nat) : SpatialMap α := ⟨fun _ => d, fun xi _ => xi, fun p _ => p, fun _ g _ => g⟩
 
-/-- the harness's user map: even point indices are unconstrained (dof = D); odd ones live on the
-paraboloid `p_{D-1} = c·Σ_{k<D-1} ξ_k² + e` (dof = D−1), `c = (index+1)/4`, `e = index/2` -/
-def paraboloidMap [Num α] (d : Nat) : SpatialMap α :=
+/-- the harness's user map: point indices with `index % 2 ≠ parity` are unconstrained (dof = D); the
+others live on the paraboloid `p_{D-1} = c·Σ_{k<D-1} ξ_k² + e` (dof = D−1), `c = (index+1)/4`, `e = index/2` -/
+def paraboloidMap [Num α] (d parity : Nat) : SpatialMap α :=
   let c (i : Nat) : α := lit (i + 1) / lit 4
   let e (i : Nat) : α := lit i / lit 2
-  { udim := fun i => if i % 2 = 0 then d else d - 1,
+  { udim := fun i => if i % 2 ≠ parity then d else d - 1,
     toPhysical := fun xi i =>
-      if i % 2 = 0 then xi else xi ++ [c i * sum (xi.map (fun x => x * x)) + e i],
-    toUnconstrained := fun p i => if i % 2 = 0 then p else p.take (d - 1),
+      if i % 2 ≠ parity then xi else xi ++ [c i * sum (xi.map (fun x => x * x)) + e i],
+    toUnconstrained := fun p i => if i % 2 ≠ parity then p else p.take (d - 1),
     backwardGrad := fun xi g i =>
-      if i % 2 = 0 then g
+      if i % 2 ≠ parity then g
       else
         let gl := g.getD (d - 1) (lit 0)
         List.zipWith (fun x gk => gk + gl * (lit 2 * c i * x)) xi (g.take (d - 1)) }
